@@ -16,7 +16,7 @@ RULES = ("R1 solver-reachable functions that reach std::io::_print = print cells
          "searched only in the first argument (format string), never in text that already contains substituted values")
 TRUSTED = ["rustc nightly MIR construction", "std::io::_print is the only stdout writer used (print!/println!)"]
 
-PRINT_FNS = {"std::io::_print", "std::io::_eprint", "std::io::stdout", "std::io::Stdout::write", "std::io::Write::write_all"}
+PRINT_FNS = {"std::io::_print", "std::io::stdout", "std::io::Stdout::write", "std::io::Write::write_all"}   # stdout only: C04 is observed there
 OUT_CELLS = ("print", "print_list", "nl")
 
 
